@@ -177,3 +177,94 @@ Proof.
     repeat (destruct H as [H | H]; [inversion H; subst; reflexivity |]). contradiction.
   - vm_compute. reflexivity.
 Qed.
+
+(* ------------------------------------------------------------------------ *)
+(* Part 2: the positive theorems (proved in C06When.v / C06Keep.v)          *)
+
+From AMV Require Proofs.C06When Proofs.C06Keep.
+
+Definition when_iff_lemma := C06When.when_iff_lemma.
+Definition when_single_state_iff_lemma := C06When.when_single_state_iff_lemma.
+Definition when_no_lost_wakeup_lemma := C06When.when_no_lost_wakeup_lemma.
+Definition whenqueue_partial_lemma := C06Keep.whenqueue_no_lost_lemma.
+Definition whenqueueends_lemma := C06Keep.whenqueueends_lemma.
+Definition statectx_partial_lemma := C06Keep.statectx_no_lost_lemma.
+
+Lemma when_spurious_partial_lemma : forall a0 pre k v neg sts ctx post,
+  let es := pre ++ EOp k v (when_op neg sts ctx) :: post in
+  forallb plain_ev es = true -> coherent a0 es -> fresh_k k post -> known v sts = true ->
+  let a1 := acts a0 pre in
+  closed_of (run init_sst es) k = true ->
+  told_cond neg sts a1 = true \/ walked_later neg sts a1 post = true.
+Proof.
+  intros a0 pre k v neg sts ctx post es Hp Hc Hf Hk a1 Hcl.
+  pose proof (C06When.when_iff_lemma a0 pre k v neg sts ctx post Hp Hc Hf Hk) as H.
+  cbv zeta in H. fold es a1 in H. rewrite Hcl in H. symmetry in H. apply orb_true_iff in H. exact H.
+Qed.
+
+(* ProcessStateCtx cancels nothing but the contexts of the listed states *)
+Lemma statectx_only_lemma : forall s act deact i,
+  is_closed (process_state_ctx s act deact) i = true ->
+  is_closed s i = true \/ exists x t, In x (act ++ deact) /\ In (x, (i, t)) (ss_sctx s).
+Proof. intros s act deact i H. apply (C06Keep.process_state_ctx_only (act ++ deact) s i). exact H. Qed.
+
+(* ---- non-vacuity *)
+
+Definition ex_view (act : list nat) (cl : list N) (qt : N) (running : bool) : view :=
+  {| v_active := act; v_clock := cl; v_qtick := qt; v_running := running; v_window := false |}.
+
+Definition ex_a0 : nat -> bool := fun _ => false.
+Definition ex_pre : list sevent := [EProcess [0] [] [0; 0; 0]%N [1; 0; 0]%N 2%N].
+(* Set [1] from {0}: 1 activated, 0 deactivated *)
+Definition ex_post : list sevent := [EProcess [1] [0] [1; 0; 0]%N [2; 1; 0]%N 3%N].
+
+Lemma ex_coherent : forall sts ctx,
+  coherent ex_a0 (ex_pre ++ EOp 0 (ex_view [0] [1; 0; 0]%N 2 false) (OWhen sts ctx) :: ex_post).
+Proof.
+  intros sts ctx. cbn. repeat split. intros x. destruct (Nat.eqb x 0); reflexivity.
+Qed.
+
+(* the hypotheses of when_iff hold of a history in which the multi-state quirk
+   shows: the told condition never holds, the walk completes the binding *)
+Lemma when_iff_nonvacuous_lemma :
+  let v := ex_view [0] [1; 0; 0]%N 2 false in
+  let es := ex_pre ++ EOp 0 v (when_op false [0; 1] None) :: ex_post in
+  forallb plain_ev es = true /\ coherent ex_a0 es /\ fresh_k 0 ex_post /\ known v [0; 1] = true /\
+  told_cond false [0; 1] (acts ex_a0 ex_pre) = false /\
+  held_later (told_cond false [0; 1]) (acts ex_a0 ex_pre) ex_post = false /\
+  walked_later false [0; 1] (acts ex_a0 ex_pre) ex_post = true /\
+  closed_of (run init_sst es) 0 = true.
+Proof.
+  cbv zeta. split; [reflexivity|]. split; [apply ex_coherent|]. split.
+  { intros e [He|[]]. subst e. discriminate. }
+  repeat split; vm_compute; reflexivity.
+Qed.
+
+(* a single-state When served by a later activation *)
+Lemma when_single_nonvacuous_lemma :
+  let v := ex_view [0] [1; 0; 0]%N 2 false in
+  let es := ex_pre ++ EOp 0 v (when_op false [1] None) :: ex_post in
+  forallb plain_ev es = true /\ coherent ex_a0 es /\ fresh_k 0 ex_post /\ known v [1] = true /\
+  Bool.eqb (acts ex_a0 ex_pre 1) true = false /\
+  held_later (fun a' => Bool.eqb (a' 1) true) (acts ex_a0 ex_pre) ex_post = true /\
+  closed_of (run init_sst es) 0 = true.
+Proof.
+  cbv zeta. split; [reflexivity|]. split; [apply ex_coherent|]. split.
+  { intros e [He|[]]. subst e. discriminate. }
+  repeat split; vm_compute; reflexivity.
+Qed.
+
+Lemma queue_ctx_nonvacuous_lemma :
+  let v := ex_view [0] [1; 0; 0]%N 2 true in
+  (let es := ex_pre ++ EOp 0 v (OWhenQueue 3) :: ex_post in
+   ss_crashed (run init_sst es) = false /\
+   (3 <=? v_qtick v)%N || processed_with (fun qt => (3 <=? qt)%N) ex_post = true /\
+   closed_of (run init_sst (ex_pre ++ [EOp 0 v (OWhenQueue 3)])) 0 = false) /\
+  (let es := ex_pre ++ EOp 0 v OWhenQueueEnds :: [EQueueEnd] in
+   ss_crashed (run init_sst es) = false /\
+   closed_of (run init_sst (ex_pre ++ [EOp 0 v OWhenQueueEnds])) 0 = false) /\
+  (let post := [EStateCtx [1] [0]] in
+   let es := ex_pre ++ EOp 0 v (ONewStateCtx 0) :: post in
+   ss_crashed (run init_sst es) = false /\ known v [0] = true /\ ctx_touched 0 post = true /\
+   closed_of (run init_sst (ex_pre ++ [EOp 0 v (ONewStateCtx 0)])) 0 = false).
+Proof. cbv zeta. repeat split; vm_compute; reflexivity. Qed.
